@@ -101,6 +101,18 @@ def check_config(c):
                          lambda: 'result malformed or %d callback calls for %d sweeps' % (len(cbu.snaps), NS), tags):
             continue
         states = [Ypre] + [s['Y'] for s in cbu.snaps]
+        # the maxvol pre-iteration only re-parametrises the initial approximation: "the tensor of the previous sweep" of
+        # sweep 1 is Y0 itself, and the first convergence value is the distance to it
+        d = len(shape)
+        Y0 = space.tt(shape, [1] + [c['r0']] * (d - 1) + [1], 'gen', seed, tag=29)
+        D0 = ref.dense(Y0)
+        n0 = float(np.linalg.norm(D0))
+        dv = float(np.linalg.norm(ref.dense(Ypre) - D0))
+        res.check(dv <= 1e-9 * n0, 'pre.same', case, lambda: 'nswp=0 returns a tensor that differs from Y0 by relative %.3e' % (dv / n0), tags + ['pre'])
+        e1 = cbu.snaps[0]['info']['e']
+        w1 = float(np.linalg.norm(ref.dense(cbu.snaps[0]['Y']) - D0)) / n0
+        res.check(abs(e1 - w1) <= 1e-7 * (1 + w1), 'info.e.first', case,
+                  lambda: "first sweep: info['e']=%r, distance to the initial tensor %r" % (e1, w1), tags + ['pre'])
         for S in states:
             res.state(digest(ref.core_bytes(S)))
         # ---- history oracle: exactness once the working ranks have reached the true ranks --------
